@@ -476,6 +476,63 @@ def _status_names(ctx):
 # C03 (file access / pre-process / syntax errors of the accessor; internal errors of the processor).  Their
 # clauses carry C02 as well: the check of C02 re-proves them on the current tree.
 
+# ------------------------------------------------------------------------------ the preprocessor
+# "anything that prevents ... execution is reported as the documented error verdict": a preprocessor that does not
+# end with exit code 0 -- any other code, negative ones (killed by a signal) included -- or that cannot be started
+# is a ProcessError, which the accessor reports as PRE_PROCESS_ERROR (C03: AccessorFromParts.apply); its standard
+# output is the test case only when it exited with 0.  (After the seeded change C02-s4.)
+import subprocess as _subprocess
+import tempfile as _tempfile
+from pyvc.interp import PyRaise as _PyRaise
+from pyvc.api import ListOf, new_opaque      # noqa: E402,F811
+from exactly_lib.processing import preprocessor as _preprocessor
+
+
+def _m_pp_subprocess_call(interp, args, kwargs):
+    st = interp.st
+    st.emit('preprocessor-started', tuple(args), dict(kwargs))
+    if st.choose(2) == 1:
+        exc = OSError('subprocess: cannot execute')
+        st.emit('preprocessor:raised', exc)
+        raise _PyRaise(exc)
+    code = Int.make(interp, 'exit_code')
+    st.emit('preprocessor:returned', code)
+    return code
+
+
+class _TmpFileI(Interface):
+    """a tempfile.TemporaryFile opened w+: context manager; seek; read gives what the child wrote to it"""
+    methods = {'__enter__': Method(model=lambda interp, self, args, kwargs: self),
+               '__exit__': Method(returns=Const(None)),
+               'seek': Method(returns=Int),
+               'read': Method(returns=Str, event='read-output')}
+
+
+M.model(_subprocess.call, _m_pp_subprocess_call)
+M.model(_tempfile.TemporaryFile, lambda interp, args, kwargs: new_opaque(interp, _TmpFileI, 'tmpfile'))
+M.trust('subprocess.call returns the exit code of the child (negative: killed by a signal) or raises OSError; '
+        'tempfile.TemporaryFile(mode="w+") is a context manager giving a file that holds what the child wrote')
+
+
+class _CasePathI(Interface):
+    attrs = {'name': Str, 'parent': Any_}
+
+
+def _pp_exit(trace):
+    return [e[1] for e in trace if e[0] == 'preprocessor:returned']
+
+
+M.contract('exactly_lib.processing.preprocessor:PreprocessorViaExternalProgram.apply',
+           params=dict(self=Inst(_preprocessor.PreprocessorViaExternalProgram, external_program=ListOf(Str)),
+                       test_case_file_path=Iface(_CasePathI), test_case_source=Str),
+           returns=Str,
+           ensures={'its output is the test case only if the preprocessor exited with 0': lambda trace:
+                    _pp_exit(trace) == [0],
+                    'started once': lambda trace: len([e for e in trace if e[0] == 'preprocessor-started']) == 1},
+           raises={tcp.ProcessError: {'ensures': lambda trace: _pp_exit(trace) != [0]}},
+           raises_only=())
+
+
 def _widen():
     import importlib
     shared = {
@@ -492,6 +549,13 @@ def _widen():
             'exactly_lib.processing.processors:_Executor.apply',
         },
     }
+    # which failure an execution reports (an assertion failure followed by a failing cleanup is an interrupted
+    # execution: the error verdict, not FAIL/XFAIL) is decided by the executor classes; their contracts (C01: the
+    # protocol layers below full_execution.execute) carry C02 as well.  (After the seeded change C02-s5.)
+    from contracts.common import share_contracts
+    from contracts import C01_protocol as _c01
+    _layers = (_c01.P_EX + ':', _c01.P_PSE + ':', _c01.P_SIE + ':')
+    share_contracts('C02', 'contracts.C01_protocol', lambda q: q.startswith(_layers))
     for modname, qnames in shared.items():
         mod = importlib.import_module(modname)
         have = {c.qname for c in mod.M.contracts}
